@@ -126,8 +126,15 @@ template<class T>
 double mae_error_functor<T>::operator()(const dataframe::example &example) const
 {
   if (const auto model_value = agent_(example); has_value(model_value))
-    return std::fabs(lexical_cast<D_DOUBLE>(model_value)
-                     - label_as<D_DOUBLE>(example));
+  {
+    const double err(std::fabs(lexical_cast<D_DOUBLE>(model_value)
+                               - label_as<D_DOUBLE>(example)));
+
+    // The difference of two huge finite values can overflow: an infinite
+    // error would turn the running mean into a NaN.
+    if (std::isfinite(err))
+      return err;
+  }
 
   return std::numeric_limits<double>::max() / 100.0;
 }
@@ -166,7 +173,22 @@ double rmae_error_functor<T>::operator()(
     if (delta <= 10.0 * std::numeric_limits<D_DOUBLE>::min())
       err = 0.0;
     else
-      err = 200.0 * delta / (std::fabs(approx) + std::fabs(target));
+    {
+      const auto sum(std::fabs(approx) + std::fabs(target));
+      err = 200.0 * delta / sum;
+
+      // With huge values the intermediate results overflow (`inf / inf`,
+      // `x / inf`, `200 * delta == inf`): repeat the calculation with scaled
+      // operands. An infinite `delta` means opposite signs, i.e. the maximum
+      // relative difference.
+      if (!std::isfinite(sum) || !std::isfinite(err))
+      {
+        err = 100.0 * (delta / (std::fabs(approx) / 2.0
+                                + std::fabs(target) / 2.0));
+        if (!(err <= 200.0))
+          err = 200.0;
+      }
+    }
     // Some alternatives for the error:
     // * delta / std::max(approx, target)
     // * delta / std::fabs(target)
@@ -201,7 +223,11 @@ double mse_error_functor<T>::operator()(const dataframe::example &example) const
   {
     const double err(lexical_cast<D_DOUBLE>(model_value)
                      - label_as<D_DOUBLE>(example));
-    return err * err;
+
+    // The square (or the difference itself) can overflow: an infinite error
+    // would turn the running mean into a NaN.
+    if (const double err2(err * err); std::isfinite(err2))
+      return err2;
   }
 
   return std::numeric_limits<double>::max() / 100.0;
